@@ -189,11 +189,18 @@ def run_schedule(payload, rnd=None):
         it = I(import_from_yaml(CHART))
         orig = it.execute_once
 
+        queued_n = [0]
+        starved = []
+
         def eo():
             S.yield_point('execute_once')
+            was_final = Interpreter.final.fget(it)
             s = orig()
             if s:
                 executed.append(s.event.name if s.event is not None else '<init>')
+            elif not was_final and queued_n[0] > len([e for e in executed if e != '<init>']):
+                # (every event the clients queue is due at once)
+                starved.append([queued_n[0], len(executed)])
             return s
         it.execute_once = eo
 
@@ -239,6 +246,7 @@ def run_schedule(payload, rnd=None):
                     elif k == 'queue':
                         S.yield_point('queue')
                         it.queue(op[1])
+                        queued_n[0] += 1
                     elif k == 'pause':
                         r.pause()
                     elif k == 'unpause':
@@ -286,7 +294,7 @@ def run_schedule(payload, rnd=None):
         obs = {'executed': executed, 'reported': reported, 'before_run': hooks['before_run'],
                'after_run': hooks['after_run'], 'cycles': hooks['cycles'],
                'unpaused': r_events[i_unpaused].flag, 'stop': r_events[i_stop].flag, 'final': Interpreter.final.fget(it),
-               'runner_done': S.state.get('runner') == 'done',
+               'runner_done': S.state.get('runner') == 'done', 'starved': starved,
                'enabled': [nm in en for nm in names]}
         aux = {'result': result, 'trace': list(S.trace), 'names': names,
                'states': {k: (v if isinstance(v, str) else 'blocked') for k, v in S.state.items()}}
@@ -377,6 +385,10 @@ class C20(Prop):
         consumed = [e for e in ex if e != '<init>']
         if single and consumed != queued[:len(consumed)]:
             res.violations.append('consumed events %s are not a prefix of the queued events %s' % (consumed, queued))
+        if obs.get('starved'):
+            q, n = obs['starved'][0]
+            res.violations.append('execute_once() executed nothing although %d events had been queued (all due at once) and only '
+                                  '%d consumed: a due event was not consumed' % (q, len([e for e in ex[:n] if e != '<init>'])))
         if ex.count('<init>') > 1 or (ex and ex[0] != '<init>'):
             res.violations.append('unexpected macro step sequence %s' % ex)
         # pause: once pause() has returned, only the cycle already under way (the runner passed its
